@@ -253,11 +253,11 @@ func (vc *VC) fnName() string {
 func (vc *VC) oblige(st *State, kind string, goal *Term, props []string, pos string) {
 	if goal.S == "true" {
 		// trivially discharged; still counted, no solver call needed
-		vc.obls = append(vc.obls, &Obligation{Name: vc.oblName(kind), Props: props, Func: vc.fnName(), Kind: kind, Path: vc.npaths, Pos: pos,
+		vc.obls = append(vc.obls, &Obligation{Name: vc.oblName(kind), Props: props, Func: vc.fnName(), FuncKey: vc.key, Kind: kind, Path: vc.npaths, Pos: pos,
 			Goal: "true", Result: SolveResult{Answer: "unsat", Solver: "syntactic"}})
 		return
 	}
-	o := &Obligation{Name: vc.oblName(kind), Props: props, Func: vc.fnName(), Kind: kind, Path: vc.npaths, Pos: pos,
+	o := &Obligation{Name: vc.oblName(kind), Props: props, Func: vc.fnName(), FuncKey: vc.key, Kind: kind, Path: vc.npaths, Pos: pos,
 		Trace: append([]string{}, st.trace...), Goal: goal.S, Labels: map[string]string{}}
 	o.Values = append(append([]string{}, vc.valueNames...), vc.extraValues...)
 	for k, v := range vc.valueLabels {
@@ -269,7 +269,7 @@ func (vc *VC) oblige(st *State, kind string, goal *Term, props []string, pos str
 
 // cover records a vacuity canary: the path condition must be satisfiable here.
 func (vc *VC) cover(st *State, kind string, pos string) {
-	o := &Obligation{Name: vc.oblName(kind), Func: vc.fnName(), Kind: kind, Path: vc.npaths, Pos: pos, MustFail: true,
+	o := &Obligation{Name: vc.oblName(kind), Func: vc.fnName(), FuncKey: vc.key, Kind: kind, Path: vc.npaths, Pos: pos, MustFail: true,
 		Trace: append([]string{}, st.trace...), Goal: "false"}
 	o.Script = vc.script(st, tFalse, nil)
 	vc.obls = append(vc.obls, o)
